@@ -244,6 +244,10 @@ fn record(case: &RestartCase, seed: u64) -> CaseRecord {
             if seeded_routes >= 1 {
                 rec.nontrivial_key = Some(hash_str(&stored) ^ out2.log_hash.rotate_left(9) ^ seed);
             }
+            if seed % 97 == 0 {
+                rec.sample = Some(json!({ "case_seed": seed, "kind": "crash-restart", "seeded_fitness": seeded, "returned_fitness": returned, "order": order,
+                    "strategy_returns": case.second_returns, "second_config": case.second_config, "second_spec": case.second_spec.to_json() }));
+            }
             rec.evaluations += 1;
         }
     }
